@@ -37,12 +37,15 @@ CLAIMS = {
                 'of every statement after counting it, so statement L+1 never runs and the abort carries exactly the budget message; every started '
                 'statement (top level, script functions however invoked, included scripts) adds one and the counter never decreases; a limited run is '
                 'in LOCK STEP with the unlimited run - it gives the same result/log/globals/count or is aborted at a point the unlimited run goes past '
-                '(mutual induction over eval/call/exec); hence a run completing after N statements is unchanged by every limit >= N. Both premises are '
-                'proved for the modelled library. The model is run inside Coq against the implementation on (program, limit) pairs; an independent '
+                '(mutual induction over eval/call/exec); hence a run completing after N statements is unchanged by every limit >= N; and under a positive limit every run '
+                'TERMINATES: for enough fuel the model answer no longer depends on the fuel nor on what the recursion bottoms out with '
+                '(C09_terminates_partial; the designed shape `exists fuel, answer <> OFuel` is refuted by a machine-checked cyclic-compare example). The premises are '
+                'proved for the modelled library INCLUDING arraySort, which really calls back into script code (Proofs/LibCall.v). The model is run inside Coq against the implementation on (program, limit) pairs; an independent '
                 'reference interpreter with the same limit plus metamorphic checks (every L in 1..N+2, L = 0, log prefix, count = L+1) are the direct oracle.',
-        'note': 'trusted: Coq kernel/vm_compute; transliteration of runtime.py validated by the correspondence; the two library premises are hypotheses of '
-                'the theorems (proved for Model/LibCore.v, exercised on the real library by the oracle: arraySort callbacks, includes, data helpers). Partial: '
-                'termination of the fuelled model under a positive limit (C09_terminates) is not proved; CPython recursion limit out of scope. No axioms.',
+        'note': 'trusted: Coq kernel/vm_compute; transliteration of runtime.py validated by the correspondence; the library premises are hypotheses of '
+                'the theorems (proved for Model/LibAll.v libfull = LibCore + arraySort with callbacks + lifted LibSeq; exercised on the real library by the oracle: '
+                'includes, data helpers). Partial: termination needs a rank premise on the library (a library function calls back only script functions or '
+                'lower-ranked library functions) which excludes arraySort(a, arraySort)-style statement-free recursion, cut in CPython by RecursionError (out of scope). No axioms.',
         'ref': 'DESIGN.md section 5 C09',
     },
     'C03': {
@@ -98,8 +101,9 @@ CLAIMS = {
                 'that parse_script(printed text) = compile(tree) and that the structured interpreter agrees with the implementation, on generated trees of the fragment; '
                 'the whole language incl. for, functions inside blocks and every nesting shape to depth 3 is decided on the implementation against an independent '
                 'structured reference interpreter (result, log, final globals), and the Coq parser+interpreter model is run against the implementation.',
-        'note': 'PARTIAL (named in Props/C01.v): for-loops are outside the proved fragment; the simulation is per scope; premises: unlimited budget, library monotone in '
-                'callback termination, expression evaluation does not read the statement counter (Ev_blind). compile = the fold of the parser\'s pure lowering step over the tree\'s line kinds is PROVED '
+        'note': 'PARTIAL (named in Props/C01.v): for-loops are outside the proved fragment; the simulation is per scope; premises on the LIBRARY only (monotone in callback termination, does not read the '
+                'statement counter, touches it only through callbacks, lock step) - all proved for Model/LibAll.v libfull incl. arraySort with callbacks; the simulation holds '
+                'with an unlimited budget (C01_simulation_library_premises_partial) and under any positive limit up to the budget abort (C01_simulation_under_a_limit_partial). compile = the fold of the parser\'s pure lowering step over the tree\'s line kinds is PROVED '
                 '(C01_compile_is_the_parser_lowering, C01_parse_is_compile); that a printed text classifies to those kinds is decided per case inside Coq. Trusted: Coq kernel/vm_compute, transliterations validated by the correspondence, harness reference interpreter. No axioms.',
         'ref': 'DESIGN.md section 5 C01',
     },
